@@ -343,6 +343,32 @@ class Interp:
                     continue
                 args = ([call["recv"]] if call.get("k") == "MethodCall" else []) + list(call["args"])
                 calls.append((b, hb, args))
+        # a function that is handed an origin and cuts its token slice at an offset it receives *inside a probe closure*
+        # (`let covers = |call, call_offset| call.to_text_range(&tokens[call_offset..]).contains(index)`) treats the slice as the
+        # absolute token vector: the offsets the closure is called with are origins computed on the way down
+        def probe_closures():
+            added = False
+            for b in bodies:
+                if not any((b["p"], pid_) in origin for pid_ in nums[b["p"]]):
+                    continue
+                clo_params = set()
+                for cl_ in hir.nodes(b["body"], "Closure"):
+                    for q_ in cl_.get("params") or []:
+                        for bd in hir.pat_bindings(q_):
+                            if b["_crate"].tstr(bd["bt"]).replace("&", "").strip() == "usize":
+                                clo_params.add(bd["id"])
+                if not clo_params:
+                    continue
+                for n in hir.nodes(b["body"], "Index"):
+                    bid = local_id(n["base"])
+                    idx = hir.strip(n["idx"])
+                    if bid in toks[b["p"]] and idx.get("k") == "Struct":
+                        for f in idx["fields"]:
+                            if f["name"] == "start" and local_id(f["e"]) in clo_params:
+                                if (b["p"], bid) not in abs_toks:
+                                    abs_toks.add((b["p"], bid))
+                                    added = True
+            return added
         changed = True
         rounds = 0
         while changed and rounds < 10:
@@ -378,6 +404,8 @@ class Interp:
                             elif ck in abs_toks and key not in abs_toks:
                                 abs_toks.add(key)
                                 changed = True
+            if probe_closures():
+                changed = True
             # tokens[origin..]
             for b in bodies:
                 for n in hir.nodes(b["body"], "Index"):
@@ -1246,6 +1274,14 @@ class State:
                 role = self.I._param_roles(body).get(body["params"][i]["id"])
                 if role is not None and role.k == "toks" and role.frame.base == "abs":
                     continue  # the callee treats this slice as the absolute token vector (it indexes it with an origin)
+                if av.k == "toks" and role is None:
+                    # the callee only stores the slice in a struct of its own (`CallSearch { tokens, cursor: index, offset }`) and
+                    # never indexes it itself: which frame it is used in is decided by code this interpretation does not follow
+                    pid_ = body["params"][i]["id"]
+                    uses_ = [(x_, ps_) for x_, ps_ in hir.walk(body["body"]) if (hir.path_local(x_) or {}).get("id") == pid_]
+                    if uses_ and all(any(q_.get("k") == "Struct" and (q_.get("adt") or "").startswith(("lsp4spl::", "spl_frontend::"))
+                                         for q_ in ps_[-3:]) for _, ps_ in uses_):
+                        continue
             if av.k == "ref":
                 # (a parameter of generic type - `impl IntoIterator<Item = &Reference<T>>` - takes the Reference(s) as they are)
                 ptn_ = bc.tstr(body["params"][i]["bt"]).replace("&", "").replace("mut ", "").strip() if dcl == "generic" else ""
